@@ -167,6 +167,10 @@ def check(prog, rep, tier):
                     oks = False
                     continue
                 amt = v[3]
+                # a store clamped against the cell as it is now - cell - min(amount, cell) - subtracts the amount wherever the cell can
+                # afford it (always, while no more is removed than was added) and pins a cell that two hashes select at 0 otherwise
+                if amt[0] == "call" and amt[1] == ("g", "min") and len(amt[2]) == 2 and any(strip_epochs(x) == strip_epochs(v[2]) for x in amt[2]):
+                    amt = [x for x in amt[2] if strip_epochs(x) != strip_epochs(v[2])][0]
                 # amount = num_els if min_val > num_els else min_val, min_val = min over the key's cells
                 mv = [n for n in walk(amt) if n[0] == "call" and n[1] == ("g", "min") and len(n[2]) == 1]
                 want = None
